@@ -18,6 +18,8 @@ CRATES = {
     "importer": {},
     "consensus": {},
     "txstatus": {},
+    "services": {},
+    "aggregator": {},
 }
 
 
@@ -278,5 +280,73 @@ PROPS["C34"] = {
         H("c34_da_record_f1_b1000", [_AU + "update_da_record_data", _AU + "da_block_update", _AU + "update_unrecorded_block_bytes"], "<= 2 heights, 1000 recorded bytes", cuts=_C34_CUTS, timeout={"quick": 1800, "thorough": 3600}),
         H("c34_da_record_f100_b0", [_AU + "update_da_record_data"], "<= 2 heights, 0 recorded bytes", cuts=_C34_CUTS, timeout={"quick": 1800, "thorough": 3600}),
         H("c34_l2_update_f1", [_AU + "update_l2_block_data"], "any updater, next height, capacity 30,000,000, factor 1", cuts=_C34_CUTS, tiers=("thorough",), timeout={"thorough": 7200}),
+    ],
+}
+
+PROPS["C11"] = {
+    "crate": "core",
+    "level": "model_checking",
+    "explanation": "Reverse prefix iteration over RocksDB seeks to next_prefix(prefix) and walks back while keys carry the prefix; "
+                   "that equals the sorted-map answer iff [prefix, next_prefix(prefix)) holds exactly the keys with the prefix. The real "
+                   "next_prefix is executed symbolically for every prefix and key within the bound.",
+    "bounds": "prefix <= 3 bytes (quick) / 4 bytes (thorough), key <= 4 bytes, all byte values",
+    "outside": "everything else in the statement: RocksDB itself (C++ behind FFI), the history-keeping store, MemoryStore (BTreeMap), "
+               "commits, forward iteration, start keys; a stored key equal to next_prefix(prefix) itself (seek_for_prev lands on it and "
+               "take_while stops; cannot occur when all keys of a column are longer than the prefix, as in fuel-core's tables)",
+    "assumptions": ["RocksDB seek_for_prev(k) positions at the greatest key <= k and prev() walks in descending key order (RocksDB documentation)"],
+    "harnesses": [
+        H("c11_next_prefix_p3", ["fuel_core::state::rocks_db::next_prefix"], "prefix <= 3 bytes, key <= 4 bytes"),
+        H("c11_next_prefix_p4", ["fuel_core::state::rocks_db::next_prefix"], "prefix <= 4 bytes, key <= 4 bytes", tiers=("thorough",)),
+    ],
+}
+_BAL = "fuel_core::graphql_api::indexation::balances::"
+PROPS["C36"] = {
+    "crate": "core",
+    "level": "model_checking",
+    "explanation": "One executor event applied by the real balances indexer to an arbitrary stored balance: the stored value afterwards "
+                   "is the accounting equation (before +- amount in the right component, only the event's key written), a deduction "
+                   "larger than the balance is an underflow error with no write, disabled indexation touches nothing. With exact "
+                   "executor events this step preserves 'indexed balance = sum of unspent amounts'.",
+    "bounds": "one event (CoinCreated / CoinConsumed / MessageImported / MessageConsumed, retryable or not) from any stored u128 "
+              "balance or none, any u64 amount; owners and assets vary in one byte (equal or different keys)",
+    "outside": "the owned-coin / owned-message / coins-to-spend indexes (key insert/remove on real tables), the worker service, "
+               "exactness of the executor's events (C02), sums above u128::MAX - u64::MAX (saturating add)",
+    "assumptions": ["one event touches one balance key, so a one-slot-per-table transaction mock is faithful for a single step",
+                    "storage reads/writes of the mock succeed"],
+    "harnesses": [
+        H("c36_coin_step", [_BAL + "update", _BAL + "increase_coin_balance", _BAL + "decrease_coin_balance"], "any stored coin balance, any coin event",
+          cuts=["alloc::fmt::format -> empty string", "Backtrace::capture -> disabled"]),
+        H("c36_message_step", [_BAL + "update", _BAL + "increase_message_balance", _BAL + "decrease_message_balance"], "any stored message balance, any message event",
+          cuts=["alloc::fmt::format -> empty string", "Backtrace::capture -> disabled"]),
+    ],
+}
+
+_SQ = "fuel_core_services::seqlock::"
+PROPS["C42"] = {
+    "crate": "services",
+    "level": "model_checking",
+    "technique": "sequentialised bounded model checking: the real reader runs in Kani/CBMC while an environment writer, scheduled by "
+                 "symbolic choices at every atomic operation of the reader, replays the memory effects of the real writer",
+    "explanation": "Kani is single-threaded, so the thread schedule becomes data: the real SeqLockReader::read runs with its loads, "
+                   "fences and yield stubbed to let an environment writer take 0..=4 steps first; the environment performs exactly "
+                   "the real writer's memory effects (sequence+1, data half, data half, sequence+1), which a second harness "
+                   "establishes from the real SeqLockWriter::write. Every interleaving of one read with <= 2 writes at the granularity "
+                   "of atomic operations is decided.",
+    "bounds": "one read racing with 1 (w1) or 2 (w2) writes of distinct equal-halves values; the writer may have taken any number of "
+              "steps before the read starts; 8 scheduling points with 0..=4 writer steps each, then the write in progress completes "
+              "(fairness); reader loop unwound 9 times with the unwinding assertion on",
+    "outside": "weak-memory reorderings (CBMC executes sequentially consistent; the Acquire/Release arguments are ignored), several "
+               "concurrent readers (reads do not write), torn hardware reads of the data cell, panics inside the write closure",
+    "assumptions": ["sequential consistency", "there is exactly one writer (enforced by the type: SeqLockWriter is not Clone)",
+                    "the data copy in the reader is one step; the writer's data update is two steps (halves)"],
+    "harnesses": [
+        H("c42_writer_trace", [_SQ + "SeqLockWriter::write", _SQ + "SeqLock::new"], "any initial and written value",
+          cuts=["Atomic<u64>::fetch_add -> performs the add and records it", "atomic::fence -> recorded", "panic::catch_unwind -> Ok(f()) (abort-on-panic model)"]),
+        H("c42_reader_w1", [_SQ + "SeqLockReader::read"], "1 concurrent write, all schedules within the budget",
+          cuts=["Atomic<u64>::load -> environment writer steps, then the load", "atomic::fence, thread::yield_now -> environment writer steps"],
+          timeout={"quick": 1500, "thorough": 3600}),
+        H("c42_reader_w2", [_SQ + "SeqLockReader::read"], "2 concurrent writes, all schedules within the budget",
+          cuts=["Atomic<u64>::load -> environment writer steps, then the load", "atomic::fence, thread::yield_now -> environment writer steps"],
+          timeout={"quick": 1800, "thorough": 3600}),
     ],
 }
